@@ -4,7 +4,7 @@ from __future__ import annotations
 import ast
 import itertools
 
-from sa.loader import norm, norm1, walk_shallow, own_nodes, call_name, AnalysisError
+from sa.loader import recv, norm, norm1, walk_shallow, own_nodes, call_name, AnalysisError
 from sa.absval import Interp, UNDEF, MISSING
 from sa.docs_api import directives
 from sa.typestate import check_language
@@ -291,7 +291,7 @@ def run(ck):
     for m in sorted(duals, key=lambda m: m.name):
         g = ck.cfg(m.fid, 'M0')
         apps = nodes_where(g, lambda n: any(call_name(c) == 'append' and
-                                            norm(c.func.value) == 'self._editlist' for c in node_calls(n)))
+                                            recv(c) == 'self._editlist' for c in node_calls(n)))
         rets = return_nodes(g)
         ok = len(apps) == 1 and must_pass(g, g.entry, apps, [g.exit]) is None and bool(rets) and \
             all(norm(r.ast.value) == 'self' for r in rets) and \
